@@ -27,8 +27,8 @@ def _deep_strategy(tier):
 
 
 PARTS = {"machine": {"check": make_check({"C03"}, _nt), "strategy": _strategy,
-                     "budget": {"quick": 3000, "thorough": 100000}},
-         "deep": {"check": make_check({"C03"}, _nt), "strategy": _deep_strategy, "budget": {"quick": 2000, "thorough": 60000}}}
+                     "budget": {"quick": 3000, "thorough": 60000}},
+         "deep": {"check": make_check({"C03"}, _nt), "strategy": _deep_strategy, "budget": {"quick": 2000, "thorough": 40000}}}
 
 def _nonpositive_strategy(tier):
     # books whose limit prices include zero and negative values (accepted by pams with a warning): rounds must still terminate
